@@ -42,8 +42,10 @@ def describe(prop):
                  "points / sensitive hosts sharing a subnet.  The advertised"
                  " hop count is compared with the exact minimum number of "
                  "hosts to compromise (Dreyfus-Wagner on the subnet graph); "
-                 "the reference model's pruned closure plan and several "
-                 "randomised goal-reaching plans are replayed on the real "
+                 "for configurations with <= 6 hosts the exact optimum of the "
+                 "reference model (memoised search over the monotone state "
+                 "graph), otherwise/additionally the pruned closure plan and "
+                 "several randomised goal-reaching plans are replayed on the real "
                  "environment with the draws forced to succeed and the "
                  "episode totals compared with get_score_upper_bound().  "
                  "distinct = digest of the scenario spec; non-trivial = at "
@@ -52,6 +54,7 @@ def describe(prop):
                    "two_or_more_sensitive_subnets",
                    "two_sensitive_hosts_in_one_subnet",
                    "negative_discovery_value", "goal_reaching_episode",
+                   "exact_model_optimum", "bound_requeried_after_episode",
                    "bound_attained"],
         "assumptions": [
             "search over goal-reaching histories is heuristic (pruned "
